@@ -35,7 +35,7 @@ def gen_history(rng, name, focus="mixed", cp=64, max_updates=2, pb=None, force_s
     ops.append(G.op_setup(pb, lb_present=lbp, ub_present=ubp))
     pbs[0] = pb
     opno = 1
-    tags = ["n%d" % pb["n"], "p%d" % pb["p"], "m%d" % pb["m"], "b:" + "".join(k[0] for k in pb["kinds"])]
+    tags = ["n%d" % pb["n"], "p%d" % pb["p"], "m%d" % pb["m"], "b:" + "".join(k[0] for k in pb["kinds"])] + list(pb.get("gen_tags", []))
     nupd = 0 if focus == "single" else rng.randint(0 if focus != "updates" else 1, max_updates)
     if rng.random() < (0.7 if nupd else 1.0):
         ops.append(G.op_solve()); pbs[opno] = pb; opno += 1
